@@ -24,6 +24,7 @@ class Engine:
         self.p = subprocess.Popen([path, "uci"], stdin=subprocess.PIPE, stdout=subprocess.PIPE,
                                   stderr=subprocess.DEVNULL, bufsize=0)
         self.q = queue.Queue()
+        self.last_info = None
         threading.Thread(target=self._rd, daemon=True).start()
 
     def _rd(self):
@@ -46,6 +47,8 @@ class Engine:
                 return None, None
             if l is None:
                 return None, "eof"
+            if l.startswith("info"):
+                self.last_info = l[:160]
             if l.startswith(prefix):
                 return t, l
 
@@ -82,7 +85,7 @@ def timed_go(eng_path, fen, go, overhead):
         t0 = time.monotonic()
         e.send(go)
         t, l = e.wait("bestmove", 30)          # generous watchdog: only a hang or a crash ends here
-        return {"elapsed": (t - t0) if t is not None else None, "line": l, "latency": lat}
+        return {"elapsed": (t - t0) if t is not None else None, "line": l, "latency": lat, "last_info": e.last_info}
     finally:
         e.close()
 
@@ -150,7 +153,8 @@ def phase_wall_clock(chk, eng, fens):
                 break
             if attempt == 0:
                 first_misses += 1
-            log("  wall-clock miss %d/3: %s | %s -> %s ms (%s)" % (attempt + 1, c["fen"], c["go"], tries[-1], r["line"]))
+            log("  wall-clock miss %d/3: %s | %s -> %s ms (%s; engine's last report: %s)" %
+                (attempt + 1, c["fen"], c["go"], tries[-1], r["line"], r["last_info"]))
         c["tries"] = tries
         ok = tries[-1] is not None and tries[-1] < c["t"]
         c["elapsed_ms"] = tries[-1]
